@@ -166,6 +166,7 @@ class PipeWorld:
         self.next_total = 0
         self.monotone_next = False
         self.next_fault = False
+        self.journal_fault = False
         self._patch()
         self.boot()
 
@@ -178,6 +179,10 @@ class PipeWorld:
 
         def tracking_open(path, mode='r', *a, **k):
             if 'w' in mode:
+                if w.journal_fault:
+                    # environment deviation: the journal cannot be written once
+                    w.journal_fault = False
+                    raise OSError(28, 'verif: injected "No space left on device"')
                 written.append(path)
             return open(path, mode, *a, **k)
 
